@@ -209,6 +209,37 @@ inline void rect_transform(Rng& g, Path64& p) {
   if (g.coin()) for (auto& q : p) q.x = -q.x;
   if (g.coin()) std::reverse(p.begin(), p.end());
 }
+// rectangles hung on one ROW: 3-6 rectangles whose bottom or top edge lies on the line y = Y, or which straddle it, with their
+// vertical sides taken from 4-7 shared x-levels.  The solution then has several horizontal stretches on one scanline which overlap,
+// run in opposite directions and carry intermediate vertices exactly where another stretch begins or ends - the inputs of
+// ConvertHorzSegsToJoins / ProcessHorzJoins (found necessary by the seeded change C03r4-m2: an off-by-one in the walk that advances
+// a segment's left end to the start of the overlap shows only when such an intermediate vertex coincides with that start).
+inline void gen_row_rects(Rng& g, Input& in) {
+  in = Input();
+  int nx = (int)g.range(4, 7);
+  std::vector<int64_t> xs;
+  int64_t x = g.range(0, 2);
+  for (int i = 0; i < nx; ++i) { xs.push_back(x); x += g.range(1, 2); }
+  int64_t Y = g.range(3, 5);
+  int nr = (int)g.range(3, 6);
+  for (int k = 0; k < nr; ++k) {
+    int a = (int)g.range(0, nx - 2), b = (int)g.range(a + 1, nx - 1);
+    int64_t h = g.range(1, 3);
+    Path64 q;
+    switch (g.next() % 5) {
+      case 0: case 1: q = rect_path(xs[a], Y, xs[b], Y + h); break;            // one edge on the row, body on one side
+      case 2: case 3: q = rect_path(xs[a], Y - h, xs[b], Y); break;            // ... on the other side
+      default: q = rect_path(xs[a], Y - g.range(1, 4), xs[b], Y + g.range(1, 3)); break;   // straddles the row
+    }
+    if (g.coin()) std::reverse(q.begin(), q.end());
+    std::rotate(q.begin(), q.begin() + (long)g.range(0, 3), q.end());
+    (g.chance(65) ? in.subj : in.clip).push_back(q);
+  }
+  if (in.subj.empty()) { in.subj.push_back(in.clip.back()); in.clip.pop_back(); }
+  if (g.coin()) for (auto* ps : {&in.subj, &in.clip}) for (auto& q : *ps) for (auto& v : q) v.x = -v.x;
+  if (g.coin()) for (auto* ps : {&in.subj, &in.clip}) for (auto& q : *ps) for (auto& v : q) v.y = -v.y;
+  in.cls = 2; in.gen = "rect.row";
+}
 // rectilinear input on the lattice step*Z with many forced coincidences (shared edges, touching corners)
 inline void gen_rectilinear(Rng& g, Input& in, int64_t step, bool simple_only = false) {
   in = Input();
